@@ -29,7 +29,7 @@ func checkBytes(c bytesCase) *vlib.Failure {
 }
 
 var fragments = []string{"\n", "\r\n", "\t", " ", ">", "@", "+", "#", "##", ".", "-", "0", "1", "chr1", "a", "ACGT", "IIII", "##gff-version", "##gff-version 2", "##sequence-region",
-	"##DNA", "##end-DNA", "##Type", "##date", ";", ",", "\x00", "\xff", "9223372036854775808", "+\n", "@a\nAC\n+\nII\n", ">a\nAC\n", "c\t1\t2\tn\t0\t+\t1\t2\t0\t1\t1\t0\n", "s\tp\tf\t1\t2\t.\t+\t.\tT v\n"}
+	"##DNA", "##end-DNA", "##Type", "##date", ";", ",", "\x00", "\xff", "\xa0", "\x85", " \xa0", "\t\x85\xa0", ">id \xa0", "@id \x85", "\xc2\xa0", "\u2028", "9223372036854775808", "+\n", "@a\nAC\n+\nII\n", ">a\nAC\n", "c\t1\t2\tn\t0\t+\t1\t2\t0\t1\t1\t0\n", "s\tp\tf\t1\t2\t.\t+\t.\tT v\n"}
 
 func genBytes(t *rapid.T) bytesCase {
 	c := bytesCase{Reader: rapid.SampledFrom(append(append(append([]string{}, Readers...), "fasta-q"), FastqVariants...)).Draw(t, "reader")}
@@ -92,7 +92,7 @@ type mutCase struct {
 	Muts   []mut          `json:"muts"`
 }
 
-var hostileFields = []string{"-1", "-7", "9223372036854775807", "-9223372036854775808", "2", "255", "256", "0", "-0", "+", ".", "", "0x", "1e3", "9223372036854775808", "-9223372036854775809", "١", "NaN", "Inf", "\x00", "\xff\xfe", "##", "#", ">", "@", "1_0", " 5", "5 ", "++", "x", "1,2", ",", ";", "a b;;c", "\"", "-", "1.5"}
+var hostileFields = []string{"-1", "-7", "9223372036854775807", "-9223372036854775808", "2", "255", "256", "0", "-0", "+", ".", "", "0x", "1e3", "9223372036854775808", "-9223372036854775809", "١", "NaN", "Inf", "\x00", "\xff\xfe", "##", "#", ">", "@", "1_0", " 5", "5 ", "++", "x", "1,2", ",", ";", "a b;;c", "\"", "-", "1.5", "\xa0", "\x85", "a \xa0", "\xa0\x85"}
 var hostileLines = []string{"##Type  DNA", "##type  dna", "##Type ", "##Type   ", "##sequence-region  a 1 5", "##sequence-region a  1 5", "##DNA  x", "##gff-version  2", "##date  2012-1-01", "##source-version  x", "##  ", "##gff-version", "##gff-version x", "##gff-version 3", "##gff-version 2", "##sequence-region a", "##sequence-region a 0 5", "##sequence-region a x 5", "##sequence-region a 1 y",
 	"##sequence-region", "##DNA", "##DNA x", "##RNA", "##Protein", "##date", "##date notadate", "##date 2012-1-01", "##Type", "##Type DNA", "##", "##end-DNA", "##source-version", "##source-version x", "#", ">", "@", "+", "",
 	"\t\t\t\t\t\t\t\t", "a\tb\tc\t1\t2\t.\t+", "a\tb\tc\t1\t2\t.\t+\t.", "a\tb\tc\t0\t2\t.\t+\t.", "a\tb\tc\t1\t2\t.\t+\t.\t9x y", "a\tb\tc\t1\t2\t.\t+\t.\t\t\t\t", "c\t1", "c\t1\t2", "c\t1\t2\tn\t0\t+\t1\t2\t0\t2\t1\t0", "c\t1\t2\tn\t0\t+\t1\t2\t1,2\t1\t1\t0", "@a", "+a", ">x y", "IIII", "ACGT"}
